@@ -21,6 +21,7 @@ REGISTRY = {
     "C08": ("harness.checks.pen", "run"),
     "C06": ("harness.checks.dat", "run"),
     "C09": ("harness.checks.dat", "run"),
+    "C13": ("harness.checks.matrix", "run"),
 }
 
 
